@@ -180,7 +180,9 @@ def cases(draw, max_depth=2):
         if wlen >= 3:
             p0 = draw(st.integers(0, wlen - 2))
             inner_kids = descs[p0:p0 + 2]
-            outer_kids = descs[:p0] + [{op: list(draw(st.permutations(inner_kids))) if op != "$and" else inner_kids}] + descs[p0 + 2:]
+            # inside $and_any_order the inner group may also be an explicit $and (a unit that keeps its own order)
+            inner_op = "$and" if op == "$and_any_order" and draw(st.integers(0, 2)) == 0 else op
+            outer_kids = descs[:p0] + [{inner_op: list(draw(st.permutations(inner_kids))) if inner_op != "$and" else inner_kids}] + descs[p0 + 2:]
             if op == "$and_any_order":
                 pattern = [{op: list(draw(st.permutations(outer_kids)))}]
                 perm = list(draw(st.permutations(list(range(i, j)))))
@@ -192,6 +194,10 @@ def cases(draw, max_depth=2):
                     perm = rest[: len(rest) // 2] + [i + p0, mid, i + p0 + 1] + rest[len(rest) // 2:]
                     if draw(st.booleans()):
                         perm = list(reversed(perm))
+                elif inner_op == "$and" and draw(st.booleans()):
+                    # the inner pair stays adjacent but in the other order: fine for any-order children, not for an $and
+                    a_, b_ = perm.index(i + p0), perm.index(i + p0 + 1)
+                    perm[a_], perm[b_] = perm[b_], perm[a_]
                 window = [[L[x][0], L[x][1], list(L[x][2]), list(L[x][3])] for x in perm]
                 L[i:j] = window
                 NV = norm_view(L)
